@@ -52,7 +52,8 @@ var sigKinds = []byte{'L', 'M', 'O', 'F', 'S', 'G'}
 
 type c06case struct {
 	Flavour string   `json:"flavour"` // gnosis | service
-	N, T    int      `json:"n,t"`
+	N       int      `json:"n"`
+	T       int      `json:"t"`
 	Signers []uint64 `json:"signers"`
 	Sigs    string   `json:"sigs"`            // one kind letter per signature entry
 	Field   string   `json:"field,omitempty"` // single-field change of the message after signing
